@@ -37,15 +37,25 @@ def solver_class(alg):
             "MaxSINR": A.MaxSinrIASolver, "MMSE": A.MMSEIASolver}[alg]
 
 
+_FORM = [0]
+
+
 def P_of(kind, K):
-    return {"default": None, "scalar": 1.7, "vector": np.array([0.8, 1.5, 2.2, 1.1][:K])}[kind]
+    """the same power in the different forms a caller may use (float / numpy scalar, array / list / tuple)"""
+    _FORM[0] += 1
+    if kind == "default":
+        return None
+    if kind == "scalar":
+        return (1.7, np.float64(1.7), np.float32(1.75) if False else 1.7)[_FORM[0] % 2]
+    v = [0.8, 1.5, 2.2, 1.1][:K]
+    return (np.array(v), list(v), tuple(v))[_FORM[0] % 3]
 
 
 def P_array(kind, K):
     p = P_of(kind, K)
     if p is None:
         return np.ones(K)
-    return np.ones(K) * p
+    return np.ones(K) * np.asarray(p, dtype=float)
 
 
 def unit(rs, r, c):
